@@ -1,3 +1,653 @@
 import ViaProofs.Statements
+/-
+  C06 — per-connection buffering is bounded by the configured limits.
+
+  `retained r` is everything the request receiver stores for a connection; `bound cfg` is a formula in the
+  configured limits.  `C06`: for EVERY byte stream, however long and however fragmented, and whether or not the
+  application's handler clears the receiver, the receiver never retains more than `bound cfg` bytes between two
+  `receive` calls.  (With the unrepaired `message_headers` this was false: `":\r\n"` repeated grows one header
+  value without limit.)
+-/
 namespace Via
+
+def fieldsBytes (fs : Fields) : Nat := (fs.map fun p => p.1.length + p.2.length).sum
+
+/-- bytes retained by the receiver: method, target, header map, header line in progress, body, and of the chunk:
+    data, size digits, extension, trailers, trailer line in progress -/
+def retained (r : RR) : Nat :=
+  r.request.line.method.length + r.request.line.uri.length +
+  fieldsBytes r.request.headers.fields +
+  (r.request.headers.field.name.length + r.request.headers.field.value.length) +
+  r.body.length +
+  r.chunk.data.length + r.chunk.hdr.hexSize.length + r.chunk.hdr.ext.length +
+  fieldsBytes r.chunk.trailers.fields +
+  (r.chunk.trailers.field.name.length + r.chunk.trailers.field.value.length)
+
+/-- the bound computed from the limits (the `+ maxHdrNum` terms are the separators that join repeated fields) -/
+def bound (cfg : Cfg) : Nat :=
+  cfg.maxMethod + cfg.maxUri + 2 * (cfg.maxHdrLen + cfg.maxHdrNum + cfg.maxLine) +
+  cfg.maxContent + cfg.maxChunk + Gen.maxSizeDigits + cfg.maxLine
+
+/-- the states a receiver can be in between two `receive` calls of a connection: the initial state, the state
+    returned by `receive` (what a handler sees), and that state after the server's reaction -/
+inductive Reach (cfg : Cfg) : RR → Prop
+  | init : Reach cfg {}
+  | recv (r : RR) (buf : Bytes) : Reach cfg r → Reach cfg (RR.receive cfg r buf).1
+  | react (r : RR) (buf : Bytes) : Reach cfg r →
+      Reach cfg (RR.afterResult cfg (RR.receive cfg r buf).1 (RR.receive cfg r buf).2.2)
+  | cleared (r : RR) : Reach cfg r → Reach cfg r.clear
+  | continued (r : RR) : Reach cfg r → Reach cfg { r with continueSent := true }
+
+def C06_statement : Prop :=
+  ∀ (cfg : Cfg) (r : RR), 3 ≤ cfg.maxMethod → Reach cfg r → retained r ≤ bound cfg
+
+namespace C06
+
+/-! ### request line -/
+def GoodRL (cfg : Cfg) (s : RL) : Prop := s.method.length ≤ cfg.maxMethod ∧ s.uri.length ≤ cfg.maxUri
+
+theorem RL_parseChar_good (cfg : Cfg) (s : RL) (c : Byte) (h : GoodRL cfg s) :
+    (RL.parseChar cfg s c).2 = true → GoodRL cfg (RL.parseChar cfg s c).1 := by
+  unfold RL.parseChar
+  unfold GoodRL at h ⊢
+  obtain ⟨h1, h2⟩ := h
+  simp only
+  repeat' split
+  all_goals simp_all
+  all_goals omega
+
+theorem RL_loop_good (cfg : Cfg) (s : RL) (buf : Bytes) (h : GoodRL cfg s) :
+    GoodRL cfg (RL.loop cfg s buf).1 ∨
+      ((RL.loop cfg s buf).2.2 = true ∧ (RL.loop cfg s buf).1.fail = true) := by
+  induction buf generalizing s with
+  | nil => exact Or.inl h
+  | cons c cs ih =>
+    simp only [RL.loop]
+    split
+    · exact Or.inl h
+    · by_cases hok : (s.parseChar cfg c).2 = true
+      · simp only [hok, Bool.not_true, Bool.false_eq_true, if_false]
+        exact ih _ (RL_parseChar_good cfg s c h hok)
+      · simp [hok]
+
+theorem RL_parse_good (cfg : Cfg) (s : RL) (buf : Bytes) (h : GoodRL cfg s) :
+    GoodRL cfg (RL.parse cfg s buf).1 ∨
+      ((RL.parse cfg s buf).2.2 = false ∧ (RL.parse cfg s buf).1.fail = true) := by
+  unfold RL.parse
+  simp only
+  rcases RL_loop_good cfg s buf h with hg | ⟨h1, h2⟩
+  · split
+    · exact Or.inl hg
+    · exact Or.inl hg
+  · simp [h1, h2]
+
+/-! ### field line -/
+def slack (st : HS) : Nat := if st = .valid then 1 else 0
+
+def GoodFL (cfg : Cfg) (f : FL) : Prop :=
+  f.name.length + f.value.length + slack f.st ≤ f.length ∧ f.length ≤ cfg.maxLine
+
+theorem GoodFL_init (cfg : Cfg) : GoodFL cfg {} := by
+  simp [GoodFL, slack]
+
+theorem FL_parseChar_good (cfg : Cfg) (s : FL) (c : Byte) (h : GoodFL cfg s) :
+    (FL.parseChar cfg s c).2 = true → GoodFL cfg (FL.parseChar cfg s c).1 := by
+  unfold FL.parseChar FL.valueStep
+  unfold GoodFL at h ⊢
+  obtain ⟨h1, h2⟩ := h
+  simp only
+  repeat' split
+  all_goals simp_all [slack]
+  all_goals omega
+
+theorem FL_peek_good (cfg : Cfg) (s : FL) (b : Bytes) (h : GoodFL cfg s) : GoodFL cfg (s.peek b) := by
+  unfold FL.peek
+  split
+  · exact h
+  · split
+    · rename_i hc
+      simp only [Bool.and_eq_true, beq_iff_eq] at hc
+      unfold GoodFL at h ⊢
+      simp only [hc.1, slack, if_true] at h
+      simp only [List.length_append, List.length_singleton, slack]
+      simp
+      omega
+    · exact h
+
+theorem FL_loop_good (cfg : Cfg) (s : FL) (buf : Bytes) (h : GoodFL cfg s) :
+    GoodFL cfg (FL.loop cfg s buf).1 ∨
+      ((FL.loop cfg s buf).2.2 = false ∧ (FL.loop cfg s buf).1.fail = true) := by
+  induction buf generalizing s with
+  | nil => exact Or.inl h
+  | cons c cs ih =>
+    simp only [FL.loop]
+    split
+    · exact Or.inl h
+    · by_cases hok : (s.parseChar cfg c).2 = true
+      · simp only [hok, Bool.not_true, Bool.false_eq_true, if_false]
+        exact ih _ (FL_peek_good cfg _ _ (FL_parseChar_good cfg s c h hok))
+      · simp [hok]
+
+/-! ### header map -/
+
+theorem fieldsBytes_add (fs : Fields) (n v : Bytes) :
+    fieldsBytes (fs.add n v) ≤ fieldsBytes fs + (n.length + v.length) + 1 := by
+  induction fs with
+  | nil => simp [Fields.add, fieldsBytes]
+  | cons p rest ih =>
+    obtain ⟨n', v'⟩ := p
+    simp only [Fields.add]
+    split
+    · rename_i hn
+      have : n' = n := by simpa using hn
+      subst this
+      simp only [fieldsBytes, List.map_cons, List.sum_cons, List.length_append, List.length_singleton]
+      omega
+    · simp only [fieldsBytes, List.map_cons, List.sum_cons] at ih ⊢
+      omega
+
+def GoodMH (cfg : Cfg) (h : MH) : Prop :=
+  fieldsBytes h.fields ≤ h.length + h.number ∧ h.length ≤ cfg.maxHdrLen ∧ h.number ≤ cfg.maxHdrNum ∧
+    GoodFL cfg h.field
+
+theorem GoodMH_init (cfg : Cfg) : GoodMH cfg {} := by
+  refine ⟨?_, ?_, ?_, GoodFL_init cfg⟩ <;> simp [fieldsBytes]
+
+/-- the outcomes after which the receiver clears everything -/
+def BadMH (res : MH × Bytes × Bool) : Prop :=
+  res.2.2 = false ∧ (res.1.field.fail = true ∨ res.2.1 ≠ [])
+
+def OkMH (cfg : Cfg) (res : MH × Bytes × Bool) : Prop := GoodMH cfg res.1 ∨ BadMH res
+
+theorem MH_commit_good (cfg : Cfg) (h : MH) (f : FL) (hg : GoodMH cfg h) :
+    (MH.commit cfg h f).2 = true → GoodMH cfg (MH.commit cfg h f).1 := by
+  unfold MH.commit
+  simp only
+  have ha := fieldsBytes_add h.fields f.name f.value
+  obtain ⟨h1, h2, h3, h4⟩ := hg
+  split
+  · simp
+  · rename_i hc
+    intro _
+    simp only [Bool.or_eq_true, decide_eq_true_eq, not_or, Nat.not_lt] at hc
+    refine ⟨?_, hc.1, hc.2, GoodFL_init cfg⟩
+    simp only
+    omega
+
+theorem MH_blank_same (cfg : Cfg) (h : MH) (buf : Bytes) :
+    (MH.blank cfg h buf).1.fields = h.fields ∧ (MH.blank cfg h buf).1.length = h.length ∧
+    (MH.blank cfg h buf).1.number = h.number ∧ (MH.blank cfg h buf).1.field = h.field := by
+  cases buf with
+  | nil => simp [MH.blank]
+  | cons c cs =>
+    simp only [MH.blank]
+    by_cases h1 : (!h.blankCr && !isEol c) = true
+    · simp only [h1, if_true, and_self]
+    · simp only [h1, Bool.false_eq_true, if_false]
+      by_cases h2 : (!(!h.blankCr && c == 13) && cfg.strict && !h.blankCr) = true
+      · simp only [h2, if_true, and_self]
+      · simp only [h2, Bool.false_eq_true, if_false]
+        by_cases h3 : (!h.blankCr && c == 13) = true
+        · simp only [h3, if_true]
+          cases cs with
+          | nil => simp
+          | cons d ds => by_cases h4 : (d != 10) = true <;> simp [h4]
+        · simp only [h3, Bool.false_eq_true, if_false]
+          by_cases h4 : (c != 10) = true <;> simp [h4]
+
+theorem MH_blank_good (cfg : Cfg) (h : MH) (buf : Bytes) (hg : GoodMH cfg h) :
+    GoodMH cfg (MH.blank cfg h buf).1 := by
+  obtain ⟨e1, e2, e3, e4⟩ := MH_blank_same cfg h buf
+  unfold GoodMH
+  rw [e1, e2, e3, e4]
+  exact hg
+
+/-- what `message_headers::parse` does with the result of `field_line::parse` -/
+def finish (cfg : Cfg) (h : MH) (r : FL × Bytes × Bool) : MH × Bytes × Bool :=
+  if !r.2.2 then ({ h with field := r.1 }, r.2.1, false)
+  else if r.2.1.isEmpty then ({ h with field := r.1 }, [], false)
+  else
+    let hc := MH.commit cfg h r.1
+    if !hc.2 then (hc.1, r.2.1, false)
+    else MH.fresh cfg hc.1 r.2.1
+
+theorem fresh_nil (cfg : Cfg) (h : MH) : MH.fresh cfg h [] = (h, [], false) := by
+  rw [MH.fresh]
+
+theorem fresh_cons (cfg : Cfg) (h : MH) (c : Byte) (cs : Bytes) :
+    MH.fresh cfg h (c :: cs) =
+      if isEol c then MH.blank cfg h (c :: cs) else finish cfg h (FL.loop cfg {} (c :: cs)) := by
+  rw [MH.fresh]; rfl
+
+theorem GoodMH_field (cfg : Cfg) (h : MH) (f : FL) (hg : GoodMH cfg h) (hf : GoodFL cfg f) :
+    GoodMH cfg { h with field := f } := ⟨hg.1, hg.2.1, hg.2.2.1, hf⟩
+
+theorem finish_ok (cfg : Cfg) (h : MH) (r : FL × Bytes × Bool) (hg : GoodMH cfg h)
+    (hr : GoodFL cfg r.1 ∨ (r.2.2 = false ∧ r.1.fail = true))
+    (hrec : ∀ h', GoodMH cfg h' → OkMH cfg (MH.fresh cfg h' r.2.1)) :
+    OkMH cfg (finish cfg h r) := by
+  unfold finish
+  by_cases hok : r.2.2 = true
+  · simp only [hok, Bool.not_true, Bool.false_eq_true, if_false]
+    have hgf : GoodFL cfg r.1 := by
+      rcases hr with hr | ⟨hr, _⟩
+      · exact hr
+      · rw [hok] at hr; exact absurd hr (by simp)
+    by_cases hrest : r.2.1.isEmpty = true
+    · simp only [hrest, if_true]
+      exact Or.inl (GoodMH_field cfg h r.1 hg hgf)
+    · simp only [hrest]
+      by_cases hc : (MH.commit cfg h r.1).2 = true
+      · simp only [hc, Bool.not_true, Bool.false_eq_true, if_false]
+        exact hrec _ (MH_commit_good cfg h r.1 hg hc)
+      · simp only [hc]
+        refine Or.inr ⟨rfl, Or.inr ?_⟩
+        simpa using hrest
+  · simp only [hok]
+    have hok' : r.2.2 = false := by simpa using hok
+    rcases hr with hr | ⟨_, hr⟩
+    · exact Or.inl (GoodMH_field cfg h r.1 hg hr)
+    · exact Or.inr ⟨rfl, Or.inl hr⟩
+
+theorem MH_fresh_ok (cfg : Cfg) (h : MH) (buf : Bytes) (hg : GoodMH cfg h) :
+    OkMH cfg (MH.fresh cfg h buf) := by
+  generalize hn : buf.length = n
+  induction n using Nat.strongRecOn generalizing buf h with
+  | _ n ih =>
+    cases buf with
+    | nil => rw [fresh_nil]; exact Or.inl hg
+    | cons c cs =>
+      rw [fresh_cons]
+      split
+      · exact Or.inl (MH_blank_good cfg h _ hg)
+      · have hprog := FL.loop_progress cfg {} c cs (by decide)
+        refine finish_ok cfg h _ hg (FL_loop_good cfg {} _ (GoodFL_init cfg)) ?_
+        intro h' hg'
+        exact ih _ (by simp only [List.length_cons] at hn; omega) h' _ hg' rfl
+
+theorem MH_parse_ok (cfg : Cfg) (h : MH) (buf : Bytes) (hg : GoodMH cfg h) :
+    OkMH cfg (MH.parse cfg h buf) := by
+  unfold MH.parse
+  split
+  · exact Or.inl (MH_blank_good cfg h _ hg)
+  · split
+    · split
+      · exact Or.inl hg
+      · rename_i c cs
+        refine finish_ok cfg h (FL.parse cfg h.field (c :: cs)) hg ?_ ?_
+        · exact FL_loop_good cfg _ _ (FL_peek_good cfg _ _ hg.2.2.2)
+        · intro h' hg'
+          exact MH_fresh_ok cfg h' _ hg'
+    · exact MH_fresh_ok cfg h buf hg
+
+/-! ### request = request line + headers -/
+
+def GoodRQ (cfg : Cfg) (q : RQ) : Prop := GoodRL cfg q.line ∧ GoodMH cfg q.headers
+
+def BadRQ (res : RQ × Bytes × Bool) : Prop :=
+  res.2.2 = false ∧ (res.1.fail = true ∨ res.2.1 ≠ [])
+
+theorem RQ_parse_ok (cfg : Cfg) (q : RQ) (buf : Bytes) (hg : GoodRQ cfg q) :
+    GoodRQ cfg (RQ.parse cfg q buf).1 ∨ BadRQ (RQ.parse cfg q buf) := by
+  obtain ⟨hl, hh⟩ := hg
+  unfold RQ.parse
+  simp only
+  by_cases hlv : q.line.valid = true
+  · simp only [hlv, if_true, Bool.not_true, Bool.false_eq_true, if_false]
+    split
+    · exact Or.inl ⟨hl, hh⟩
+    · have hm := MH_parse_ok cfg q.headers buf hh
+      split
+      · rcases hm with hm | ⟨hm1, hm2⟩
+        · exact Or.inl ⟨hl, hm⟩
+        · refine Or.inr ⟨rfl, ?_⟩
+          rcases hm2 with hm2 | hm2
+          · left; simp [RQ.fail, MH.fail, hm2]
+          · right; exact hm2
+      · rename_i hp
+        rcases hm with hm | ⟨hm1, _⟩
+        · exact Or.inl ⟨hl, hm⟩
+        · rw [hm1] at hp; exact absurd rfl hp
+  · simp only [hlv, Bool.false_eq_true, if_false]
+    have hr := RL_parse_good cfg q.line buf hl
+    by_cases hp : (RL.parse cfg q.line buf).2.2 = true
+    · simp only [hp, Bool.not_true, Bool.false_eq_true, if_false]
+      have hl' : GoodRL cfg (RL.parse cfg q.line buf).1 := by
+        rcases hr with hr | ⟨hr, _⟩
+        · exact hr
+        · rw [hp] at hr; exact absurd hr (by simp)
+      split
+      · exact Or.inl ⟨hl', hh⟩
+      · have hm := MH_parse_ok cfg q.headers (RL.parse cfg q.line buf).2.1 hh
+        split
+        · rcases hm with hm | ⟨hm1, hm2⟩
+          · exact Or.inl ⟨hl', hm⟩
+          · refine Or.inr ⟨rfl, ?_⟩
+            rcases hm2 with hm2 | hm2
+            · left; simp [RQ.fail, MH.fail, hm2]
+            · right; exact hm2
+        · rename_i hp2
+          rcases hm with hm | ⟨hm1, _⟩
+          · exact Or.inl ⟨hl', hm⟩
+          · rw [hm1] at hp2; exact absurd rfl hp2
+    · simp only [hp]
+      rcases hr with hr | ⟨_, hr⟩
+      · exact Or.inl ⟨hr, hh⟩
+      · refine Or.inr ⟨rfl, Or.inl ?_⟩
+        simp [RQ.fail, hr]
+
+/-! ### chunk header -/
+
+def GoodCH (cfg : Cfg) (s : CH) : Prop :=
+  s.hexSize.length ≤ Gen.maxSizeDigits ∧ s.ext.length ≤ s.length ∧ s.length ≤ cfg.maxLine ∧
+    s.size ≤ cfg.maxChunk
+
+theorem GoodCH_init (cfg : Cfg) : GoodCH cfg {} := by
+  simp [GoodCH]
+
+theorem CH_parseChar_good (cfg : Cfg) (s : CH) (c : Byte) (h : GoodCH cfg s) :
+    (CH.parseChar cfg s c).2 = true → GoodCH cfg (CH.parseChar cfg s c).1 := by
+  unfold CH.parseChar CH.sizeStep CH.extStep
+  unfold GoodCH at h ⊢
+  obtain ⟨h1, h2, h3, h4⟩ := h
+  simp only
+  repeat' split
+  all_goals simp_all
+  all_goals omega
+
+theorem CH_loop_good (cfg : Cfg) (s : CH) (buf : Bytes) (h : GoodCH cfg s) :
+    GoodCH cfg (CH.loop cfg s buf).1 ∨
+      ((CH.loop cfg s buf).2.2 = true ∧ (CH.loop cfg s buf).1.fail = true) := by
+  induction buf generalizing s with
+  | nil => exact Or.inl h
+  | cons c cs ih =>
+    simp only [CH.loop]
+    split
+    · exact Or.inl h
+    · by_cases hok : (s.parseChar cfg c).2 = true
+      · simp only [hok, Bool.not_true, Bool.false_eq_true, if_false]
+        exact ih _ (CH_parseChar_good cfg s c h hok)
+      · simp [hok]
+
+theorem CH_parse_good (cfg : Cfg) (s : CH) (buf : Bytes) (h : GoodCH cfg s) :
+    GoodCH cfg (CH.parse cfg s buf).1 ∨
+      ((CH.parse cfg s buf).2.2 = false ∧ (CH.parse cfg s buf).1.fail = true) := by
+  unfold CH.parse
+  simp only
+  rcases CH_loop_good cfg s buf h with hg | ⟨h1, h2⟩
+  · split
+    · exact Or.inl hg
+    · exact Or.inl hg
+  · simp [h1, h2]
+
+/-! ### chunk -/
+
+def GoodCK (cfg : Cfg) (k : CK) : Prop :=
+  GoodCH cfg k.hdr ∧ k.data.length ≤ cfg.maxChunk ∧ GoodMH cfg k.trailers
+
+theorem GoodCK_init (cfg : Cfg) : GoodCK cfg {} :=
+  ⟨GoodCH_init cfg, Nat.zero_le _, GoodMH_init cfg⟩
+
+def BadCK (res : CK × Bytes × Bool) : Prop :=
+  res.2.2 = false ∧ (res.2.1 ≠ [] ∨ res.1.fail = true)
+
+theorem CK_parseData_good (cfg : Cfg) (k : CK) (buf : Bytes) (hg : GoodCK cfg k) :
+    GoodCK cfg (CK.parseData cfg k buf).1 := by
+  obtain ⟨hh, hd, ht⟩ := hg
+  have hs : k.hdr.size ≤ cfg.maxChunk := hh.2.2.2
+  unfold CK.parseData
+  simp only
+  split
+  · rename_i hlen
+    have hd' : (k.data ++ List.take (k.hdr.size - k.data.length) buf).length ≤ cfg.maxChunk := by
+      simp only [List.length_append, List.length_take]
+      omega
+    split
+    · exact ⟨hh, hd', ht⟩
+    · split
+      · exact ⟨hh, hd', ht⟩
+      · rename_i k2 rest2 heq
+        have hk2 : GoodCK cfg k2 := by
+          split at heq
+          · cases heq; exact ⟨hh, hd', ht⟩
+          · split at heq
+            · cases heq
+            · cases heq; exact ⟨hh, hd', ht⟩
+        split
+        · exact hk2
+        · split
+          · exact hk2
+          · exact hk2
+  · rename_i hlen
+    refine ⟨hh, ?_, ht⟩
+    simp only [List.length_append]
+    omega
+
+theorem CK_parse_ok (cfg : Cfg) (k : CK) (buf : Bytes) (hg : GoodCK cfg k) :
+    GoodCK cfg (CK.parse cfg k buf).1 ∨ BadCK (CK.parse cfg k buf) := by
+  -- the part after the chunk header
+  have tail : ∀ (k : CK) (buf : Bytes), GoodCK cfg k →
+      (GoodCK cfg (if k.isLast then
+          (if !(MH.parse cfg k.trailers buf).2.2 then
+            ({ k with trailers := (MH.parse cfg k.trailers buf).1 }, (MH.parse cfg k.trailers buf).2.1, false)
+          else ({ k with trailers := (MH.parse cfg k.trailers buf).1, valid := true },
+            (MH.parse cfg k.trailers buf).2.1, true))
+        else CK.parseData cfg k buf).1 ∨
+       BadCK (if k.isLast then
+          (if !(MH.parse cfg k.trailers buf).2.2 then
+            ({ k with trailers := (MH.parse cfg k.trailers buf).1 }, (MH.parse cfg k.trailers buf).2.1, false)
+          else ({ k with trailers := (MH.parse cfg k.trailers buf).1, valid := true },
+            (MH.parse cfg k.trailers buf).2.1, true))
+        else CK.parseData cfg k buf)) := by
+    intro k buf hg
+    obtain ⟨hh, hd, ht⟩ := hg
+    split
+    · have hm := MH_parse_ok cfg k.trailers buf ht
+      by_cases hp : (MH.parse cfg k.trailers buf).2.2 = true
+      · simp only [hp, Bool.not_true, Bool.false_eq_true, if_false]
+        rcases hm with hm | ⟨hm1, _⟩
+        · exact Or.inl ⟨hh, hd, hm⟩
+        · rw [hp] at hm1; exact absurd hm1 (by simp)
+      · simp only [hp]
+        rcases hm with hm | ⟨_, hm2⟩
+        · exact Or.inl ⟨hh, hd, hm⟩
+        · refine Or.inr ⟨rfl, ?_⟩
+          rcases hm2 with hm2 | hm2
+          · right; simp [CK.fail, MH.fail, hm2]
+          · left; exact hm2
+    · exact Or.inl (CK_parseData_good cfg k buf ⟨hh, hd, ht⟩)
+  unfold CK.parse
+  simp only
+  by_cases hv : k.hdr.valid = true
+  · simp only [hv, if_true, Bool.not_true, Bool.false_eq_true, if_false]
+    exact tail k buf hg
+  · simp only [hv, Bool.false_eq_true, if_false]
+    obtain ⟨hh, hd, ht⟩ := hg
+    have hc := CH_parse_good cfg k.hdr buf hh
+    by_cases hp : (CH.parse cfg k.hdr buf).2.2 = true
+    · simp only [hp, Bool.not_true, Bool.false_eq_true, if_false]
+      have hh' : GoodCH cfg (CH.parse cfg k.hdr buf).1 := by
+        rcases hc with hc | ⟨hc, _⟩
+        · exact hc
+        · rw [hp] at hc; exact absurd hc (by simp)
+      exact tail { k with hdr := (CH.parse cfg k.hdr buf).1 } _ ⟨hh', hd, ht⟩
+    · simp only [hp]
+      rcases hc with hc | ⟨_, hc⟩
+      · exact Or.inl ⟨hc, hd, ht⟩
+      · refine Or.inr ⟨rfl, Or.inr ?_⟩
+        simp [CK.fail, hc]
+
+/-! ### the receiver -/
+
+structure Good (cfg : Cfg) (r : RR) : Prop where
+  rq : GoodRQ cfg r.request
+  body : r.body.length ≤ cfg.maxContent
+  ck : GoodCK cfg r.chunk
+
+theorem Good_init (cfg : Cfg) : Good cfg {} :=
+  ⟨⟨by simp [GoodRL], GoodMH_init cfg⟩, Nat.zero_le _, GoodCK_init cfg⟩
+
+theorem Good_clear (cfg : Cfg) (r : RR) : Good cfg r.clear :=
+  ⟨(Good_init cfg).rq, (Good_init cfg).body, (Good_init cfg).ck⟩
+
+theorem Good_code (cfg : Cfg) (r : RR) (n : Nat) (h : Good cfg r) : Good cfg { r with code := n } :=
+  ⟨h.rq, h.body, h.ck⟩
+
+theorem Good_continued (cfg : Cfg) (r : RR) (h : Good cfg r) : Good cfg { r with continueSent := true } :=
+  ⟨h.rq, h.body, h.ck⟩
+
+theorem receiveBody_good (cfg : Cfg) (r : RR) (rp : Bool) (buf : Bytes) (hm : 3 ≤ cfg.maxMethod)
+    (hg : Good cfg r) : Good cfg (RR.receiveBody cfg r rp buf).1 := by
+  unfold RR.receiveBody
+  simp only
+  split
+  · exact Good_clear cfg _
+  · rename_i r' heq
+    have hg' : Good cfg r' := by
+      split at heq
+      · split at heq
+        · cases heq; exact Good_code cfg r 405 hg
+        · cases heq
+      · cases heq; exact hg
+    split
+    · exact Good_clear cfg _
+    · split
+      · exact Good_clear cfg _
+      · split
+        · exact Good_clear cfg _
+        · split
+          · exact Good_code cfg r' 100 hg'
+          · rename_i h1 h2 _ _
+            generalize r.request.headers.contentLength = cl at h1 h2 ⊢
+            have hb : (r'.body ++ List.take (if (buf.length : Int) > cl - (r'.body.length : Int)
+                then (cl - (r'.body.length : Int)).toNat else buf.length) buf).length ≤ cfg.maxContent := by
+              have hb0 := hg'.body
+              simp only [Bool.and_eq_true, decide_eq_true_eq, not_and, Int.not_lt] at h1 h2
+              simp only [List.length_append, List.length_take]
+              split <;> omega
+            generalize (if (buf.length : Int) > cl - (r'.body.length : Int)
+                then (cl - (r'.body.length : Int)).toNat else buf.length) = tk at hb ⊢
+            split
+            · split
+              · exact ⟨⟨⟨hm, hg'.rq.1.2⟩, hg'.rq.2⟩, hb, hg'.ck⟩
+              · exact ⟨hg'.rq, hb, hg'.ck⟩
+            · exact ⟨hg'.rq, hb, hg'.ck⟩
+
+theorem receiveChunk_good (cfg : Cfg) (r : RR) (rp : Bool) (buf : Bytes)
+    (hg : Good cfg r) : Good cfg (RR.receiveChunk cfg r rp buf).1 := by
+  unfold RR.receiveChunk
+  simp only
+  have hg0 : Good cfg (if r.chunk.valid = true then { r with chunk := {} } else r) := by
+    split
+    · exact ⟨hg.rq, hg.body, GoodCK_init cfg⟩
+    · exact hg
+  generalize (if r.chunk.valid = true then { r with chunk := {} } else r) = r0 at hg0 ⊢
+  split
+  · exact Good_code cfg r0 100 hg0
+  · exact hg0
+  · have hp := CK_parse_ok cfg r0.chunk buf hg0.ck
+    generalize CK.parse cfg r0.chunk buf = p at hp ⊢
+    split
+    · exact Good_clear cfg _
+    · rename_i hnb
+      have hck : GoodCK cfg p.1 := by
+        rcases hp with hp | ⟨hp1, hp2⟩
+        · exact hp
+        · exfalso
+          apply hnb
+          rcases hp2 with hp2 | hp2
+          · have : p.2.1.isEmpty = false := by simpa using hp2
+            simp [hp1, this]
+          · simp [hp1, hp2]
+      repeat' split
+      all_goals first
+        | exact Good_clear cfg _
+        | exact ⟨hg0.rq, hg0.body, hck⟩
+        | (rename_i hlen
+           refine ⟨hg0.rq, ?_, hck⟩
+           simp only [List.length_append]
+           simp only [gt_iff_lt, Nat.not_lt] at hlen
+           exact hlen)
+
+theorem receive_good (cfg : Cfg) (r : RR) (buf : Bytes) (hm : 3 ≤ cfg.maxMethod)
+    (hg : Good cfg r) : Good cfg (RR.receive cfg r buf).1 := by
+  -- what follows the request head
+  have tail : ∀ (r : RR) (rp : Bool) (buf : Bytes), Good cfg r →
+      Good cfg (if r.request.missingHost then ({ r with code := 400 }, buf, Rx.invalid)
+        else if !r.request.headers.isChunked then RR.receiveBody cfg r rp buf
+        else RR.receiveChunk cfg r rp buf).1 := by
+    intro r rp buf hg
+    split
+    · exact Good_code cfg r 400 hg
+    · split
+      · exact receiveBody_good cfg r rp buf hm hg
+      · exact receiveChunk_good cfg r rp buf hg
+  unfold RR.receive
+  simp only
+  by_cases hv : r.request.valid = true
+  · simp only [hv, Bool.not_true, Bool.false_eq_true, if_false]
+    exact tail r false buf hg
+  · simp only [hv, Bool.not_false, if_true]
+    have hp := RQ_parse_ok cfg r.request buf hg.rq
+    generalize RQ.parse cfg r.request buf = p at hp ⊢
+    by_cases hok : p.2.2 = true
+    · simp only [hok, Bool.not_true, Bool.false_eq_true, if_false]
+      have hq : GoodRQ cfg p.1 := by
+        rcases hp with hp | ⟨hp, _⟩
+        · exact hp
+        · rw [hok] at hp; exact absurd hp (by simp)
+      exact tail { r with request := p.1 } true p.2.1 ⟨hq, hg.body, hg.ck⟩
+    · simp only [hok]
+      simp only [Bool.not_false, if_true]
+      by_cases hnb : (!p.2.1.isEmpty || p.1.fail) = true
+      · simp only [hnb, if_true]
+        exact Good_clear cfg _
+      · simp only [hnb]
+        have hq : GoodRQ cfg p.1 := by
+          rcases hp with hp | ⟨hp1, hp2⟩
+          · exact hp
+          · exfalso
+            apply hnb
+            rcases hp2 with hp2 | hp2
+            · simp [hp2]
+            · have : p.2.1.isEmpty = false := by simpa using hp2
+              simp [this]
+        exact ⟨hq, hg.body, hg.ck⟩
+
+theorem afterResult_good (cfg : Cfg) (r : RR) (x : Rx) (hg : Good cfg r) :
+    Good cfg (RR.afterResult cfg r x) := by
+  cases x <;> simp only [RR.afterResult]
+  · exact Good_clear cfg _
+  · exact Good_continued cfg r hg
+  · exact hg
+  · split
+    · exact Good_clear cfg _
+    · exact hg
+  · split
+    · exact Good_clear cfg _
+    · exact hg
+
+theorem Good_bound (cfg : Cfg) (r : RR) (hg : Good cfg r) : retained r ≤ bound cfg := by
+  obtain ⟨⟨⟨l1, l2⟩, ⟨m1, m2, m3, f1, f2⟩⟩, hb, ⟨⟨c1, c2, c3, c4⟩, hd, ⟨t1, t2, t3, g1, g2⟩⟩⟩ := hg
+  unfold retained bound
+  omega
+
+theorem Reach_good (cfg : Cfg) (r : RR) (hm : 3 ≤ cfg.maxMethod) (hr : Reach cfg r) : Good cfg r := by
+  induction hr with
+  | init => exact Good_init cfg
+  | recv r buf _ ih => exact receive_good cfg r buf hm ih
+  | react r buf _ ih => exact afterResult_good cfg _ _ (receive_good cfg r buf hm ih)
+  | cleared r _ _ => exact Good_clear cfg r
+  | continued r _ ih => exact Good_continued cfg r ih
+
+end C06
+
+theorem C06 : C06_statement := by
+  intro cfg r hm hr
+  exact C06.Good_bound cfg r (C06.Reach_good cfg r hm hr)
+
+/-- non-vacuity: a state reached by an endless-header attack is covered -/
+example : Reach {} (RR.receive {} (RR.receive {} {} (b!"GET / HTTP/1.0\r\n:\r\n")).1 (b!":\r\n:\r\n")).1 :=
+  Reach.recv _ _ (Reach.recv _ _ Reach.init)
+
 end Via
